@@ -61,6 +61,9 @@ func main() {
 var extraCmds = map[string]func([]string){}
 
 // runHistory executes the ops on a fresh world and returns the transcript lines.
+// twinDigest: in twin runs of the keeper-level engine every block is followed by a digest of the complete stores
+var twinDigest bool
+
 func runHistory(ops []string, st *Stats, engine string) (*monitor.Trace, []string) {
 	var w *world.World
 	if engine == "ante" {
@@ -79,6 +82,9 @@ func runHistory(ops []string, st *Stats, engine string) (*monitor.Trace, []strin
 	}
 	for _, op := range ops {
 		res := w.Exec(op)
+		if twinDigest && engine != "ante" && op == "block" {
+			res.Hash = w.StoreDigest()
+		}
 		out = append(out, "> "+op, "< "+res.Line)
 		for _, d := range res.Dump {
 			out = append(out, "| "+d)
@@ -121,6 +127,7 @@ func chainCmd(args []string, engine string) {
 		*profile = "ante"
 	}
 	must(os.MkdirAll(*dir, 0o755))
+	twinDigest = *twin
 	st := &Stats{Engine: engine, Profile: *profile, Seed: *seed, OpKinds: map[string]int{}, Outcomes: map[string]int{}, Branches: map[string]int{}}
 	root := rng.New(*seed)
 	seen := map[string]bool{}
